@@ -617,3 +617,20 @@ Proof. eexists. split; vm_compute; reflexivity. Qed.
 (* the exact value of a neighbour's accumulated error exceeds f64::MAX after 1800 error distributions (df = 0.5, start 1/1024) *)
 Lemma error_overflow_witness : exists k, let e := distribute_times k (1, 1024) 8 1 in f64_max_bound * snd e < fst e.
 Proof. exists 1800%nat. vm_compute. reflexivity. Qed.
+
+(* the code as it is (commit 7897eb0): variance and standard deviation of an empty slice are 0, the route-derived weights of a
+   solution without routes are finite (all zero); the guard changes nothing on non-empty slices *)
+Lemma empty_statistics_zero :
+  f_variance [] = f_zero /\ f_stdev [] = f_zero /\
+  forallb f_finite (f_route_less_features f_variance f_stdev) = true /\
+  forallb f_is_zero (f_route_less_features f_variance f_stdev) = true /\
+  (forall x l, f_variance (x :: l) = f_variance_prefix (x :: l)) /\ (forall x l, f_stdev (x :: l) = f_stdev_prefix (x :: l)).
+Proof. repeat split; try (vm_compute; reflexivity); intros; reflexivity. Qed.
+
+(* the pre-fix function: variance and standard deviation of an empty slice are NaN (0/0), so two of the route-derived weights of a
+   solution without routes are not finite; on non-empty finite samples it is not NaN *)
+Lemma empty_statistics_nan_prefix :
+  PrimFloat.is_nan (f_variance_prefix []) = true /\ PrimFloat.is_nan (f_stdev_prefix []) = true /\
+  forallb f_finite (f_route_less_features f_variance_prefix f_stdev_prefix) = false /\
+  PrimFloat.is_nan (f_variance_prefix f_sample3) = false /\ PrimFloat.is_nan (f_stdev_prefix f_sample1) = false.
+Proof. vm_compute. auto. Qed.
